@@ -44,12 +44,21 @@ type (
 
 func zero[V any]() (z V) { return }
 
+func b2i(b bool) int {
+	if b {
+		return 1
+	}
+	return 0
+}
+
 func mkNextRecv[V any](f lazyRecv[V], c *co[V], k cont[V]) next[V] {
 	return func(recv V) *step[V] {
 		// c.step = nil
+		vtrace("adv", c, 0)
 		f(recv)(c, k) // compute next, set the step if bind called,
 		s := c.step   // otherwise nil
 		c.step = nil
+		vtrace("ret", c, b2i(s != nil))
 		return s
 	}
 }
@@ -75,6 +84,7 @@ func Start[V any](seq Seq[V]) Iterator[V] {
 // supporting yield statement without return value ( <- iter.Send())
 func Bind[V any](v V, f lazy[V]) Seq[V] {
 	return func(c *co[V], k cont[V]) {
+		vtrace("bind", c, 0)
 		c.step = &step[V]{
 			value: v,
 			next:  mkNext(f, c, k),
@@ -86,6 +96,7 @@ func Bind[V any](v V, f lazy[V]) Seq[V] {
 // supporting yield expression with return value
 func BindRecv[V any](v V, f lazyRecv[V]) Seq[V] {
 	return func(c *co[V], k cont[V]) {
+		vtrace("bind", c, 0)
 		c.step = &step[V]{
 			value: v,
 			next:  mkNextRecv(f, c, k),
@@ -99,6 +110,7 @@ func For[V any](
 	body Seq[V],
 ) Seq[V] {
 	return func(c *co[V], k cont[V]) {
+		vtrace("for", c, 0)
 		var loop func(skipPost bool)
 		loop = func(skipPost bool) {
 			for {
@@ -107,15 +119,18 @@ func For[V any](
 				}
 				skipPost = false
 				if cond != nil && !cond() {
+					vtrace("cond", c, 0)
 					k(kNormal, zero[V]())
 					return
 				}
+				vtrace("cond", c, 1)
 				// iterate in place when the body completes synchronously,
 				// so that non-yielding iterations do not nest stack frames;
 				// after a Bind the continuation is resumed from a fresh stack
 				// and starts the loop driver again
 				inBody, again := true, false
 				body(c, func(t contType, v V) {
+					vtrace("kfor", c, int(t))
 					switch t {
 					case kNormal, kContinue:
 						if inBody {
@@ -146,7 +161,9 @@ func For[V any](
 // Break / Return in the body skip it
 func ForPost[V any](cond func() bool, post, body Seq[V]) Seq[V] {
 	return For(cond, nil, func(c *co[V], k cont[V]) {
+		vtrace("forpost", c, 0)
 		body(c, func(t contType, v V) {
+			vtrace("kforpost", c, int(t))
 			if t == kNormal || t == kContinue {
 				post(c, k)
 			} else {
@@ -172,7 +189,9 @@ func Delay[V any](f lazy[V]) Seq[V] {
 
 func Combine[V any](s1, s2 Seq[V]) Seq[V] {
 	return func(c *co[V], k cont[V]) {
+		vtrace("comb", c, 0)
 		s1(c, func(t contType, v V) {
+			vtrace("kcomb", c, int(t))
 			// skip s2 when break/continue/return
 			// notice: break/continue
 			// whether the outer is loop or not
@@ -187,6 +206,7 @@ func Combine[V any](s1, s2 Seq[V]) Seq[V] {
 
 func seqOfK[V any](kt contType) Seq[V] {
 	return func(c *co[V], k cont[V]) {
+		vtrace("sig", c, int(kt))
 		k(kt, zero[V]())
 	}
 }
@@ -197,6 +217,7 @@ func Continue[V any]() Seq[V] { return seqOfK[V](kContinue) }
 func Return[V any]() Seq[V]   { return seqOfK[V](kReturn) }
 func ReturnValue[V any](v V) Seq[V] { // supporting generator with return value
 	return func(c *co[V], k cont[V]) {
+		vtrace("sig", c, int(kReturn))
 		k(kReturn, v)
 	}
 }
